@@ -100,20 +100,34 @@ def write_shards(prop, cases, nshards=NPROC):
     return paths
 
 
-def _run_one(binary, path, timeout):
+def _run_one(binary, path, timeout, extra=""):
     try:
-        p = subprocess.run(["bash", "-c", "ulimit -s unlimited 2>/dev/null; exec \"$0\" \"$1\"", binary, path], stdout=subprocess.PIPE, stderr=subprocess.PIPE, timeout=timeout, text=True)
+        p = subprocess.run(["bash", "-c", "ulimit -s unlimited 2>/dev/null; exec \"$0\" \"$1\" $2", binary, path, extra], stdout=subprocess.PIPE, stderr=subprocess.PIPE, timeout=timeout, text=True)
         return p.returncode, p.stdout, p.stderr
     except subprocess.TimeoutExpired as e:
         return 124, (e.stdout or b"").decode() if isinstance(e.stdout, bytes) else (e.stdout or ""), "timeout"
 
 
-def run_both(paths, timeout=1500):
+def run_impl_only(paths, extra="", timeout=1500):
+    """the harness alone (used for the repeated-process determinism runs of C20)"""
+    out = {}
+    with ThreadPoolExecutor(max_workers=NPROC) as ex:
+        futs = [(p, ex.submit(_run_one, HARNESS_BIN, p, timeout, extra)) for p in paths]
+        for p, fut in futs:
+            rc, text, err = fut.result()
+            for line in text.splitlines():
+                parts = line.split(" ", 2)
+                if len(parts) == 3:
+                    out[(parts[0], int(parts[1]))] = parts[2]
+    return out
+
+
+def run_both(paths, timeout=1500, impl_extra=""):
     """Run harness and driver on every shard, in parallel. Returns (impl_lines, model_lines, problems)."""
     jobs = []
     with ThreadPoolExecutor(max_workers=NPROC) as ex:
         for p in paths:
-            jobs.append(("impl", p, ex.submit(_run_one, HARNESS_BIN, p, timeout)))
+            jobs.append(("impl", p, ex.submit(_run_one, HARNESS_BIN, p, timeout, impl_extra)))
             jobs.append(("model", p, ex.submit(_run_one, DRIVER_BIN, p, timeout)))
         impl, model, problems = {}, {}, []
         for who, p, fut in jobs:
